@@ -38,7 +38,8 @@ CONSTANTS Part,                        \* "refl" | "recase" | "permute" | "userc
           XNameI, XValI,               \* presence / hdrextra: the item only one URI has
           Whichs,                      \* usercase: 1 user, 2 password, 3 both
           RCMasks, RCModes,            \* ReCase component masks (0 = none) and modes
-          Swaps, Revs                  \* {0} | {0, 1}
+          Swaps, Revs,                 \* {0} | {0, 1}
+          Dups                         \* TRUE: lists may repeat a name (outside the domain of the laws: drift only)
 VARIABLES ph, c, f, m
 
 FlagsStd == {0, 1, 2, 4, 8, 16, 32, 63}
@@ -53,7 +54,7 @@ Cores == {<<s, up[1], up[2], h, p>> : s \in SchI, up \in UsrPw, h \in HostI, p \
 PKey(i) == i                                                           \* the parameter names differ modulo case
 HKey(i) == GU_Lower(GU_HNames[i])                                      \* "s" and "S" are the same header name
 Lists(N, V, k, Key(_)) ==
-  UNION { {s \in [1..j -> N \X V] : \A i1, i2 \in 1..j : i1 # i2 => Key(s[i1][1]) # Key(s[i2][1])} : j \in 0..k }
+  UNION { {s \in [1..j -> N \X V] : Dups \/ \A i1, i2 \in 1..j : i1 # i2 => Key(s[i1][1]) # Key(s[i2][1])} : j \in 0..k }
 PLists == Lists(PNameI, PValI, KP, PKey)
 HLists == Lists(HNameI, HValI, KH, HKey)
 Bases(co) == {<<co[1], co[2], co[3], co[4], co[5], ps, hs>> : ps \in PLists, hs \in HLists}
@@ -174,5 +175,5 @@ DemandOnModel    == ph = 1 => (m.d = "eq" => m.eab) /\ (m.d = "ne" => ~m.eab)
 GenSane == ph = 1 => LET P == PairOf(c) IN
              /\ m.ghost
              /\ m.d = m.dsym
-             /\ (GU_IRREG \notin (PValI \cup HValI \cup XValI) => GU_WellFormed(P.a) /\ GU_WellFormed(P.b))
+             /\ ((~Dups /\ {GU_IRREG, GU_BADV} \cap (PValI \cup HValI \cup XValI) = {}) => GU_WellFormed(P.a) /\ GU_WellFormed(P.b))
 =============================================================================
